@@ -2,13 +2,13 @@ import GuppyVerif.Model.Linearity
 import GuppyVerif.Spec.C06
 import GuppyVerif.Util.Sexp
 /-! Line-protocol driver for C06.  One S-expression per line:
-    `(prog (lin x…) (bvars v…) (bleaves x…) (blocks b…) (entry e) (exit x <0|1 reachable>)
-           (rows (b x…)…) (succ (b c…)…) (stmts (b stmt…)…))`
-    stmt  = `(move (place…) (place…))` | `(call (place…) (arg…) <0|1>)` | `(ret place…)`
-    arg   = `(o place)` | `(b place)`
-    place = `(p <var|-> <0|1> leaf…)`
-    reply: `ok (b x…)…` (place-level live_before of the inner blocks) | `err <class>`
-           (`ok-rows-not-covering` / `err-rows-not-covering` if the assumption `RowsOK` fails on this CFG) | `bad-wf` (the CFG does not have the shape `Prog.WF`) -/
+    `(prog (bvars v…) (bleaves x…) (blocks b…) (entry e) (exit x <0|1 reachable>)
+           (rows (b x…)…) (rowlin (b x…)…) (succ (b c…)…) (stmts (b stmt…)…))`
+    stmt  = `(st (act…) (place…) <0|1 dropsLin>)`
+    act   = `(u place <0|1 borrow>)` | `(g place)` | `(d)`
+    place = `(p <var|-> <0|1 isLeaf> (leaf <0|1 linear>)…)`
+    reply: `ok (b x…)…` (place-level live_before of the inner blocks) | `err <class>` |
+           `bad-wf` (not the shape `Prog.WF`) | `bad-kinds` (not well-kinded: `Prog.KindsOK`) -/
 open GuppyVerif GuppyVerif.Linearity
 
 def fieldC06? (tag : String) (e : Sexp) : Option (List Nat) :=
@@ -28,26 +28,28 @@ def tblC06? (tag : String) (e : Sexp) : Option (Nat → List Nat) :=
       some fun b => ((rows.find? (·.1 == b)).map (·.2)).getD []
   | _ => none
 
+def leafK? : Sexp → Option (Nat × Bool)
+  | .list [x, .atom k] => do some ((← x.asNat?), k == "1")
+  | _ => none
+
 def place? : Sexp → Option Place
   | .list (.atom "p" :: v :: .atom lf :: ls) => do
-    let ls ← ls.mapM Sexp.asNat?
+    let ls ← ls.mapM leafK?
     let var := match v with
       | .atom "-" => none
       | e => e.asNat?
     some ⟨ls, var, lf == "1"⟩
   | _ => none
 
-def arg? : Sexp → Option Arg
-  | .list [.atom "o", p] => (place? p).map .owned
-  | .list [.atom "b", p] => (place? p).map .inout
+def act? : Sexp → Option Act
+  | .list [.atom "u", p, .atom b] => (place? p).map fun q => .use q (b == "1")
+  | .list [.atom "g", p] => (place? p).map .give
+  | .list [.atom "d"] => some .dropAfter
   | _ => none
 
 def stmt? : Sexp → Option Stmt
-  | .list [.atom "move", .list ts, .list ss] => do
-    some (.move (← ts.mapM place?) (← ss.mapM place?))
-  | .list [.atom "call", .list ts, .list as, .atom d] => do
-    some (.call (← ts.mapM place?) (← as.mapM arg?) (d == "1"))
-  | .list (.atom "ret" :: ss) => do some (.ret (← ss.mapM place?))
+  | .list [.atom "st", .list as, .list ts, .atom d] => do
+    some ⟨← as.mapM act?, ← ts.mapM place?, d == "1"⟩
   | _ => none
 
 def stmtTbl? : Sexp → Option (Nat → List Stmt)
@@ -60,14 +62,13 @@ def stmtTbl? : Sexp → Option (Nat → List Stmt)
   | _ => none
 
 def prog? : Sexp → Option Prog
-  | .list [.atom "prog", li, bv, bl, bs, en, ex, ro, su, st] => do
-    let lin ← fieldC06? "lin" li
+  | .list [.atom "prog", bv, bl, bs, en, ex, ro, rl, su, st] => do
     let [e] ← fieldC06? "entry" en | none
     let [x, xr] ← fieldC06? "exit" ex | none
-    some { lin := fun l => lin.contains l, borrowedVars := ← fieldC06? "bvars" bv,
+    some { borrowedVars := ← fieldC06? "bvars" bv,
            borrowedLeaves := ← fieldC06? "bleaves" bl, blocks := ← fieldC06? "blocks" bs,
-           entry := e, exit := x, exitReachable := xr == 1, row := ← tblC06? "rows" ro, succ := ← tblC06? "succ" su,
-           stmts := ← stmtTbl? st }
+           entry := e, exit := x, exitReachable := xr == 1, row := ← tblC06? "rows" ro,
+           rowLin := ← tblC06? "rowlin" rl, succ := ← tblC06? "succ" su, stmts := ← stmtTbl? st }
   | _ => none
 
 def errName : Err → String
@@ -76,6 +77,7 @@ def errName : Err → String
   | .placeNotUsed => "PlaceNotUsedError"
   | .borrowShadowed => "BorrowShadowedError"
   | .unnamedExprNotUsed => "UnnamedExprNotUsedError"
+  | .dropAfterCall => "DropAfterCallError"
   | .usedThenLive false => "AlreadyUsedError"
   | .usedThenLive true => "AlreadyUsedError|BorrowSubPlaceUsedError"
   | .crash => "crash"
@@ -93,36 +95,15 @@ def showLive (P : Prog) : String :=
     String.join ((rows.filter fun r => r.1 != P.entry && r.1 != P.exit).map fun r =>
       " (" ++ " ".intercalate ((r.1 :: r.2.foldr insSorted []).map toString) ++ ")")
 
-/-- all leaves that occur in the program -/
-def allLeaves (P : Prog) : List Nat :=
-  let ofPlaces (ps : List Place) := ps.flatMap (·.leaves)
-  let ofStmt : Stmt → List Nat
-    | .move t s => ofPlaces t ++ ofPlaces s
-    | .call t a _ => ofPlaces t ++ ofPlaces (a.map Arg.place)
-    | .ret s => ofPlaces s
-  (P.borrowedLeaves ++ P.blocks.flatMap (fun b => P.row b ++ (P.stmts b).flatMap ofStmt)).foldr insSorted []
-
-/-- blocks from whose start some continuation reads `l` before redefining it (`WillUse`), by
-    iteration to a fixpoint (at most `|blocks|` rounds) -/
-def willUseBlocks (P : Prog) (l : Nat) : List Nat :=
-  let here := P.blocks.filter fun b => (P.blockEvs l b).head? == some Ev.use
-  let quiet := P.blocks.filter fun b => (P.blockEvs l b).isEmpty
-  let step (w : List Nat) := w ++ quiet.filter fun b => !w.contains b && (P.succ b).any w.contains
-  (List.range P.blocks.length).foldl (fun w _ => step w) here
-
-/-- executable check of the assumption `RowsOK` of `lin_complete_rows_partial` on the CFG at hand -/
-def rowsOKb (P : Prog) : Bool :=
-  (allLeaves P).all fun l => (willUseBlocks P l).all fun b => (P.row b).contains l
-
 def handleC06 (line : String) : String :=
   match Sexp.parse line with
   | some e =>
     match prog? e with
     | some P =>
-      if !P.wfb then "bad-wf" else
+      if !P.wfb then "bad-wf" else if !P.kindsOKb then "bad-kinds" else
       match checkCfg P with
-      | .ok _ => (if rowsOKb P then "ok" else "ok-rows-not-covering") ++ showLive P
-      | .error er => (if rowsOKb P then "err " else "err-rows-not-covering ") ++ errName er
+      | .ok _ => "ok" ++ showLive P
+      | .error er => "err " ++ errName er
     | none => "bad-op"
   | none => "bad-op"
 
